@@ -52,7 +52,7 @@ pub fn run_c16(ctx: &Ctx, samples: &Samples) -> Value {
             let Some(mut srv) = start(&id, mode, &world) else { continue };
             let case = json!({"kind":"history","world": {"mode": format!("{mode:?}"), "transport": "tls"}, "events": [scenario], "scenario": scenario});
             let mut fails: Vec<(String, Value)> = vec![];
-            let mut stay = |fails: &mut Vec<(String, Value)>, before_release: &mut dyn FnMut()| {
+            let stay = |fails: &mut Vec<(String, Value)>, before_release: &mut dyn FnMut()| {
                 // a client that stays: TLS, request, (something happens), release, response
                 match TlsConn::connect(srv.addr, &ccfg) {
                     Err(e) => fails.push(("tls_connect_failed".into(), json!(e.to_string()))),
